@@ -8,4 +8,4 @@ Extraction Language OCaml.
 Extraction "model.ml"
   redact_line run_io stream hash_name is_email parse_plan_summary redact_plan_summary
   sha256_hex sha8_hex b64_encode b64_decode current current_consts RedactedString
-  parse_line print redact_tree decide effects run_key read_key atlas_run window.
+  parse_line print redact_tree decide effects decide_raw effects_raw run_key read_key atlas_run window.
